@@ -302,12 +302,15 @@ func (r *Runner) doBegin(tid int, op string, kv map[string]string) {
 			}
 		}
 		fn = func(c bapi.Client) *OpResult {
-			v4, _, err := r.Client(c).AutoAssign(bg, ipam.AutoAssignArgs{Num4: n, HandleID: handle, Hostname: hostName,
+			v4, v6, err := r.Client(c).AutoAssign(bg, ipam.AutoAssignArgs{Num4: n, Num6: atoi(kv["n6"]), HandleID: handle, Hostname: hostName,
 				IntendedUse: use, MaxBlocksPerHost: atoi(kv["maxblk"]), Namespace: ns, IPv4Pools: req})
 			res := &OpResult{Err: err}
 			if v4 != nil {
 				res.Addrs = r.addrsOf(v4.IPs)
 				res.Nets = v4.IPs
+			}
+			if v6 != nil {
+				res.Addrs = append(res.Addrs, r.addrsOf(v6.IPs)...)
 			}
 			return res
 		}
